@@ -345,6 +345,18 @@ func PopulateStructFields(m map[string]any, data any) {
 			m[k] = v
 		}
 	}
+
+	// ... and the Go names of the fields that have another name in their tag: Lookup finds a field
+	// by either (a condition or an operator expression reads this map, {{ }} asks Lookup)
+	for i := range rt.NumField() {
+		f := rt.Field(i)
+		if !f.IsExported() || f.Anonymous {
+			continue
+		}
+		if _, taken := m[f.Name]; !taken {
+			m[f.Name] = rv.Field(i).Interface()
+		}
+	}
 }
 
 // IsSlice reports whether v is a slice or array.
